@@ -48,6 +48,8 @@ def build(spec, with_graph=True, stale_prebind=True):
             ed = CE.NumTernaryEdge(list(e["ids"]), om, np.array(e["z"], dtype=float))
         else:
             raise ValueError(t)
+        if spec.get("repeat_objects") and ek > 0 and spec["edges"][ek - 1] == e:
+            ed = edges[-1]  # a parallel edge expressed by listing the SAME edge object twice
         edges.append(ed)
     if stale_prebind:
         # "start from non-initial states too": every edge object arrives already bound to OTHER vertex objects with the same
